@@ -253,6 +253,82 @@ def qf_e3(ctx, scenarios, max_q, mlevel_max_q=6):
     sample_records(ctx, p, 1)
 
 
+# Cuckoo filter.  The two constants record whether the code under /repo has the `fix:` commits
+# for D2/D3 (DESIGN.md section 2.2); they are read from spec/CuckooAsBuilt.json.
+def ck_consts():
+    return json.load(open(os.path.join(vlib.SPEC, "CuckooAsBuilt.json")))
+
+
+def ck_e1(ctx, shapes):
+    asb = ck_consts()
+    for (b, nb, fpmax, kicks, p, two) in shapes:
+        c = {"B": b, "NB": nb, "FPMax": fpmax, "MaxKicks": kicks, "P": p, "EMIT": "FALSE", "TWO": "TRUE" if two else "FALSE", "ALLFULL": "TRUE"}
+        c.update(asb)
+        ctx.e1.append(vlib.model_check("MC_Cuckoo", c, ["ExactBag", "LenOK", "NoFalseNeg"], ctx.sub("e1")))
+
+
+def ck_e2(ctx, shapes, pairs, reps=2, max_alt=150):
+    asb = ck_consts()
+    for (b, nb, fpmax, p, allfull) in shapes:
+        w = ctx.sub("ck_%d_%d_%d" % (b, nb, fpmax))
+        c = {"B": b, "NB": nb, "FPMax": fpmax, "MaxKicks": 500, "P": p, "EMIT": "TRUE", "TWO": "FALSE", "ALLFULL": "TRUE" if allfull else "FALSE"}
+        c.update(asb)
+        gen, st = vlib.generate("MC_Cuckoo", c, w, "gen.out")
+        pf, h, m = [os.path.join(w, x) for x in ("p.ndjson", "hist.ndjson", "m.ndjson")]
+        stats = vlib.vh(["replay", "ck", "--gen", gen, "--out", pf, "--hist", h, "--mout", m, "--reps", str(reps),
+                         "--max-alt", str(max_alt), "--pairs", str(pairs), "--pair-op", "union", "--seed", str(ctx.seed)], w)
+        os.remove(gen)
+        if stats.get("missing"):
+            raise ToolError("replay could not reach %d emitted transitions" % stats["missing"])
+        ctx.e2_transitions += stats["transitions"] + stats["pairs"]
+        ctx.executed += stats["executed"] + stats["alt_executed"] + stats["pairs"]
+        ctx.drift += stats["drift"]
+        ctx.drift_notes += stats.get("first_drift", [])
+        ctx.add_tags(stats.get("tags"), stats.get("tagged_distinct"))
+        ctx.extra.setdefault("state_graphs", []).append({"structure": "CuckooFilter", "bucketsize": b, "n_buckets": nb, "fingerprints": fpmax,
+                                                         "spec_states": st["distinct"], "materialised_as_real_objects": stats["states"],
+                                                         "second_representatives": stats["alt_states"], "union_pairs": stats["pairs"]})
+        handle_hang(ctx, stats, pf, "ck", "P_Cuckoo", hist=h)
+        n, rej = vlib.adjudicate("P_Cuckoo", pf, w)
+        ctx.judged += n
+        add_rejects(ctx, rej, pf, "ck", "P_Cuckoo", hist=h)
+        sample_records(ctx, pf, 1, '"full"')
+        if stats["pairs"]:
+            mc = {"B": b, "NB": nb, "FPMax": fpmax, "MaxKicks": 500}
+            mc.update(asb)
+            nm, drift = vlib.mvalidate("Trace_Cuckoo", mc, m, w)
+            ctx.mvalidated += nm
+            ctx.drift += len(drift)
+            if drift:
+                ctx.drift_notes.append({"union_pairs_not_reproduced_by_spec": drift[:5]})
+
+
+def ck_e3(ctx, scenarios, max_nb_log=4):
+    w = ctx.sub("ck_e3")
+    scf = os.path.join(w, "scenarios.ndjson")
+    vlib.vh(["drive", "ck", "--out", scf, "--seed", str(ctx.seed), "--scenarios", str(scenarios), "--max-nb-log", str(max_nb_log)], w)
+    p = os.path.join(w, "p.ndjson")
+    stats = vlib.vh(["scenario", "ck", "--in", scf, "--out", p], w)
+    ctx.e3_calls += stats["calls"]
+    ctx.executed += stats["calls"]
+    handle_hang(ctx, stats, p, "ck", "P_Cuckoo")
+    n, rej = vlib.adjudicate("P_Cuckoo", p, w)
+    ctx.judged += n
+    add_rejects(ctx, rej, p, "ck", "P_Cuckoo", scenarios=scf)
+    sample_records(ctx, p, 1, '"union"')
+
+
+def run_ck(ctx):
+    if ctx.quick:
+        ck_e1(ctx, [(2, 2, 2, 2, 2, True)])
+        ck_e2(ctx, [(2, 2, 2, 2, False)], pairs=4000)
+        ck_e3(ctx, 60)
+    else:
+        ck_e1(ctx, [(2, 2, 2, 2, 2, True), (2, 2, 3, 3, 3, True), (2, 4, 2, 2, 2, True)])
+        ck_e2(ctx, [(2, 2, 2, 2, True), (2, 2, 3, 2, False), (2, 4, 2, 2, False)], pairs=40000)
+        ck_e3(ctx, 1500, 6)
+
+
 def handle_hang(ctx, stats, records, tag, pspec, hist=None):
     for h in stats.get("hang", []):
         ctx.rejects.append({"tid": h.get("tid", 0), "clause": PROPS[ctx.pid].get("hang_clause", ctx.pid + ".total: a call did not return (hang)"),
@@ -271,7 +347,16 @@ def run_C13(ctx):
         qf_e3(ctx, 600, 16)
 
 
+CK_RULE = ("E1: every reachable state of the cuckoo M-spec (two instances, all alt-bucket functions H, every victim script up to MaxKicks); "
+           "E2: every transition of the single-instance graph (MaxKicks=500 as in the code, periodic victim scripts) executed on real objects, two keys per class, "
+           "plus union over pairs of materialised states; non-trivial = tagged (eviction of 1 / >=2 kicks, failing insert with rollback, second-bucket or duplicate insert, delete)")
+CK_ASSUME = ["TLC and the TLA+ P-spec P_Cuckoo are the judge of every executed call",
+             "random draws are scripted through rand 0.8's documented sampling algorithms (self-tested against the linked crate at start-up)",
+             "hash control through a BuildHasher that is a function of the written bytes; (fingerprint, buckets) of keys learned by probing the code"]
+
 PROPS = {
+    "C14": {"run": run_ck, "level": "model_checking", "rule": CK_RULE, "assumptions": CK_ASSUME},
+    "C12": {"run": lambda ctx: (run_ck(ctx), run_C13(ctx)), "level": "model_checking", "rule": CK_RULE + "; quotient filter as C13", "assumptions": CK_ASSUME},
     "C13": {"run": run_C13, "level": "model_checking",
             "rule": "E1: every reachable state of the quotient-filter M-spec for the listed (q,r); E2: every emitted transition executed "
                     "on real objects with two keys per fingerprint class; a transition is non-trivial (counted in distinct_nontrivial) when it is tagged "
